@@ -551,24 +551,6 @@ func (s *gsched) step(p *gproc, a int) bool {
 	switch label {
 	case "g4":
 		s.capAtG4[p.name] = rp.capacity.Get()
-	case "g5":
-		capNow := rp.capacity.Get()
-		pending := ""
-		for _, n := range []string{"worker", "setcap", "closer"} {
-			if s.procs[n].parked == "s3" {
-				pending = n
-			}
-		}
-		switch {
-		case capNow == 0 && s.capAtG4[p.name] == 0:
-			s.addCause("scale-out-at-capacity-0 by " + s.lastCapW)
-		case capNow == 0:
-			s.addCause("scale-out-raced-to-0 by " + s.lastCapW)
-		case capNow >= int64(cap(rp.resources)):
-			s.addCause("scale-out-raced-to-max by " + s.lastCapW)
-		case pending != "":
-			s.addCause("scale-out-during-pending-shrink by " + pending + ":s3")
-		}
 	case "g9":
 		s.factoryFail = a == 1
 	case "g7":
@@ -619,6 +601,14 @@ func (s *gsched) step(p *gproc, a int) bool {
 	}
 	p.last = label
 	capBefore := rp.capacity.Get()
+	pendingAtG5 := ""
+	if label == "g5" {
+		for _, n := range []string{"worker", "setcap", "closer"} {
+			if s.procs[n].parked == "s3" {
+				pendingAtG5 = n
+			}
+		}
+	}
 	pendingShrink := ""
 	if label == "s2" {
 		for _, n := range []string{"worker", "setcap", "closer"} {
@@ -650,6 +640,19 @@ func (s *gsched) step(p *gproc, a int) bool {
 				return false
 			}
 			need--
+		}
+	}
+	if label == "g5" && rp.capacity.Get() == capBefore+1 {
+		// the scale-out incremented the capacity: was that increment legitimate?
+		switch {
+		case capBefore == 0 && s.capAtG4[p.name] == 0:
+			s.addCause("scale-out-at-capacity-0 by " + s.lastCapW)
+		case capBefore == 0:
+			s.addCause("scale-out-raced-to-0 by " + s.lastCapW)
+		case capBefore >= int64(cap(rp.resources)):
+			s.addCause("scale-out-raced-to-max by " + s.lastCapW)
+		case pendingAtG5 != "":
+			s.addCause("scale-out-during-pending-shrink by " + pendingAtG5 + ":s3")
 		}
 	}
 	if rp.capacity.Get() != capBefore {
@@ -792,6 +795,10 @@ func runGated(c *rpCase, tid string, sched []rpStep, rng *rand.Rand) (*rpRun, *g
 				out.obs.Imposed = false
 				break
 			}
+			if c.Kind == "regression" && (p.parked != st.L || !s.enabled(p, st.A)) {
+				out.obs.Imposed = false // the repaired code no longer follows the old schedule here: skip the step
+				continue
+			}
 			if p.parked != st.L {
 				out.obs.Drift = fmt.Sprintf("step %d: %s is at %q, schedule expects %q", i, st.P, p.parked, st.L)
 				out.obs.Imposed = false
@@ -832,6 +839,22 @@ func runGated(c *rpCase, tid string, sched []rpStep, rng *rand.Rand) (*rpRun, *g
 				}
 			}
 			s.checkQuiescent()
+		}
+		if c.Kind == "regression" && out.obs.Drift == "" {
+			// let the remaining operations finish (first enabled process, in a fixed order)
+			for n := 0; n < 400; n++ {
+				var next *gproc
+				for _, name := range s.order {
+					if p := s.procs[name]; s.enabled(p, 0) {
+						next = p
+						break
+					}
+				}
+				if next == nil || !s.step(next, 0) {
+					break
+				}
+				s.checkQuiescent()
+			}
 		}
 	} else {
 		pe := c.ProbeEvery
@@ -1238,7 +1261,7 @@ func TestVerifResourcePool(t *testing.T) {
 			return nil
 		}
 		switch c.Kind {
-		case "candidate", "ordinary", "replay":
+		case "candidate", "ordinary", "replay", "regression":
 			r, s := runGated(&c, fmt.Sprintf("g%d", i), c.Sched, nil)
 			if s != nil && s.stuck {
 				nstuck++
